@@ -58,6 +58,12 @@ POOL = [
     Deep(langs=[], pair=(), opts={}, level=None, text=None), Deep(langs=["en", "de"], pair=(1, 2)), Deep(langs=["fr"], pair=(3,), opts={"x": "y"}, text=""),
     Bag(v=Deep.Mid.Leaf(n=2)), Bag(vs=[Deep.Mid.Kind.A, Deep.Level.LOW]),
     Bag(v=float("inf")), Bag(v=Num.ONE), Bag(v=XmlDuration("PT1.5S")), Bag(v=XmlPeriod("2021Z")), Bag(v=set()),
+    # mapping KEYS of types that occur nowhere else in the object (their imports hang on the key alone)
+    Bag(m={QName("{urn:a}k"): "v"}), Bag(m={Decimal("1.5"): "d"}), Bag(m={XmlDate(2020, 1, 2): 1}), Bag(m={Color.RED: 1}), Bag(m={Outer.Shade.DARK: 0}), Bag(m={(1, "a"): 2}),
+    Bag(m={b"k": 1}), Bag(m={1.5: 1, None: 2, True: 3}), Bag(m={XmlDuration("P1D"): XmlTime(1, 2, 3)}), Bag(m={Deep.Mid.Kind.A: Deep.Level.LOW}),
+    # REQUIRED fields (no default) holding None / a falsy value
+    DerivedElement(qname="a", value=None), WildList(items=[DerivedElement(qname="d", value=None)]), AnyTyped(v=DerivedElement(qname="x", value=None, type=None)),
+    Basic(i=None), ReqText(value=None, a=1), ReqText(value="", a=0), DerivedElement(qname="", value=0), AnyElement(),
 ]
 VARS = ["obj", "v", "_x1"]
 
